@@ -156,6 +156,17 @@ class Scenario:
         t.append(X(concrete))
         return ' '.join(t)
 
+    @staticmethod
+    def from_dict(d):
+        sc = Scenario()
+        sc.src_root, sc.dest_root, sc.dry, sc.beh, sc.filters = d['src_root'], d['dest_root'], d['dry'], d['beh'], list(d['filters'])
+        sc.src_reply, sc.dest_reply, sc.dest_reply2 = tuple(d['src_reply']), tuple(d['dest_reply']), tuple(d['dest_reply2'])
+        sc.events = [tuple(e) for e in d['events']]
+        sc.answers = d['answers']
+        sc.files = [(p, [(bytes.fromhex(h), m) for h, m in c]) for p, c in d['files']]
+        sc.err_at_cmd = d.get('err_at_cmd')
+        return sc
+
     def describe(self):
         return dict(src_root=self.src_root, dest_root=self.dest_root, dry=self.dry, beh=self.beh, filters=self.filters,
                     src_reply=self.src_reply, dest_reply=self.dest_reply, dest_reply2=self.dest_reply2,
